@@ -1062,7 +1062,7 @@ def apply(fr, f, args, kw, n):
         fi = f.info
         if fi.kind == "classmethod":
             a = [ClassRef(f.bound_cls or fi.cls)] + a
-        return I.call(fi, a, kw, f.bound_cls or fi.cls)
+        return I.call(fi, a, kw, f.bound_cls or fi.cls, closure=getattr(f, "closure", None))
     if isinstance(f, ClassRef):
         return I.construct(f.info, args, kw)
     if isinstance(f, AFn):
@@ -1328,13 +1328,57 @@ def b_str(fr, args, kw, n):
     return str(*args)
 
 
+def b_dict(fr, args, kw, n):
+    """dict(), dict(mapping), dict(pairs), dict(mapping_or_pairs, **kw), dict(**kw) — a NEW dictionary (insertion order kept)"""
+    out = {}
+    if args:
+        src = args[0]
+        if isinstance(src, dict):
+            out.update(src)
+        elif isinstance(src, AOpq):
+            return src
+        else:
+            for item in fr.iterate(src, n):
+                k, v = item
+                try:
+                    hash(k)
+                except TypeError:
+                    raise Abort("unhashable abstract dict key")
+                out[k] = v
+    out.update(kw)
+    return out
+
+
+def b_any(fr, args, kw, n):
+    for x in fr.iterate(args[0], n):
+        if fr.I.decide(x, f"any:{n.lineno}") if is_abs(x) else x:
+            return True
+    return False
+
+
+def b_all(fr, args, kw, n):
+    for x in fr.iterate(args[0], n):
+        if not (fr.I.decide(x, f"all:{n.lineno}") if is_abs(x) else x):
+            return False
+    return True
+
+
+def b_next(fr, args, kw, n):
+    items = fr.iterate(args[0], n)
+    if items:
+        return items[0]
+    if len(args) > 1:
+        return args[1]
+    raise PathRaise("StopIteration", "")
+
+
 BUILTIN_NAMES = {
     "len": b_len, "isinstance": b_isinstance, "int": b_int, "bool": b_bool, "bytes": b_bytes,
     "bytearray": b_bytearray, "list": b_list, "tuple": b_tuple, "range": b_range, "enumerate": b_enumerate,
     "zip": b_zip, "reversed": b_reversed, "print": b_print, "hasattr": b_hasattr, "divmod": b_divmod,
     "sum": b_sum, "type": b_type, "str": b_str, "repr": b_str, "min": b_opaque("min"), "max": b_opaque("max"),
     "abs": lambda fr, args, kw, n: (fin_lift(abs, args[0]) if isinstance(args[0], AFin) else (args[0].mag if isinstance(args[0], ANeg) else (args[0] if isinstance(args[0], AInt) else b_opaque("abs")(fr, args, kw, n)))), "sorted": b_opaque("sorted"), "float": b_opaque("float"), "round": b_opaque("round"),
-    "set": b_list, "frozenset": b_list, "any": b_opaque("any"), "all": b_opaque("all"), "dict": None,
+    "set": b_list, "frozenset": b_list, "any": b_any, "all": b_all, "dict": None,
 }
 BUILTINS = {}
 for _k, _v in list(BUILTIN_NAMES.items()):
@@ -1353,10 +1397,13 @@ def install(I):
 _EXTRA = {"isinstance": isinstance, "print": print, "hasattr": hasattr, "type": type, "repr": repr, "round": round,
           "getattr": getattr, "id": id, "chr": chr, "ord": ord, "hex": hex, "bin": bin, "object": object,
           "ValueError": ValueError, "KeyError": KeyError, "Exception": Exception, "NotImplementedError": NotImplementedError,
-          "AssertionError": AssertionError, "IndexError": IndexError, "TypeError": TypeError, "super": super, "format": format}
+          "AssertionError": AssertionError, "IndexError": IndexError, "TypeError": TypeError, "super": super, "format": format,
+          "next": next, "iter": iter, "StopIteration": StopIteration, "OverflowError": OverflowError, "callable": callable}
 for _k, _v in _EXTRA.items():
     SAFE.setdefault(_k, _v)
 BUILTINS[isinstance] = b_isinstance
+BUILTINS[dict] = b_dict
+BUILTINS[next] = b_next
 BUILTINS[print] = b_print
 BUILTINS[hasattr] = b_hasattr
 BUILTINS[type] = b_type
